@@ -148,7 +148,8 @@ func (task *genericTask) Type() ActivityType {
 }
 
 func (task *genericTask) Cancel() <-chan bool {
-	response := make(chan bool)
+	// buffered: the caller stops waiting for the answer when the context is done
+	response := make(chan bool, 1)
 	task.mch <- cancelMessage{response: response}
 	return response
 }
